@@ -7,6 +7,7 @@ import Mimic.Extracted.Params
 import Mimic.Auth
 import Mimic.Sha1
 import Mimic.Extracted.Auth
+import Mimic.Script
 /-! Line-protocol driver pieces: one `handle` per domain. Unknown input is answered `bad-op`, never defaulted. -/
 namespace Mimic.Drv
 
@@ -41,6 +42,7 @@ structure St where
   cur : Mimic.Cursor.Reg := Mimic.Cursor.Reg.empty
   authPlugins : List Mimic.Auth.Plugin := []
   authUsers : List (String × Mimic.Auth.User) := []
+  conn : Mimic.Conn.S := Mimic.Conn.init
 
 def ctl (st : St) : List String → St × String
   | ["new", sid] => match sid.toNat? with
@@ -343,6 +345,101 @@ def auth (st : St) : List String → St × String
       | _, _, _, _, _, _ => (st, "bad-op")
   | _ => (st, "bad-op")
 
+/-! connection machine -/
+
+open Mimic.Conn Mimic.Script in
+def showErrC : ErrC → String
+  | .generic => "generic" | .mysql => "mysql" | .queryKilled => "qkilled" | .sessionKilled => "skilled"
+  | .handshake => "handshake" | .accessDenied => "denied" | .unknownUser => "unknown"
+
+open Mimic.Conn in
+def showPK : PK → String
+  | .ok => "ok" | .err c => "err:" ++ showErrC c | .colCount n => s!"cc{n}" | .colDef => "cd" | .eofMeta => "eofm"
+  | .term f => s!"t{f}" | .row id => s!"r{id}" | .prepOk n => s!"p{n}" | .greeting => "greet"
+  | .authSwitch => "switch" | .authMore => "more"
+
+open Mimic.Conn in
+def showExc : Option Exc → String
+  | none => "-" | some .mysqlError => "mysql" | some .authFailed => "authfailed" | some .generic => "generic"
+  | some .cancelled => "cancelled" | some .connLost => "lost"
+
+open Mimic.Conn in
+def showPhase : Phase → String
+  | .greeting => "greeting" | .idle => "idle" | .closed => "closed"
+  | .parked _ .drain _ _ => "parked-drain" | .parked _ .future _ _ => "parked-future"
+
+open Mimic.Script in
+def parseRows (s : String) : Option (List RStep) :=
+  if s = "-" then some [] else
+  optAllL ((s.splitOn ",").map (fun t => match t.toList with
+    | 'r' :: d => (String.ofList d).toNat?.map (fun n => RStep.row n false)
+    | 'R' :: d => (String.ofList d).toNat?.map (fun n => RStep.row n true)
+    | ['b'] => some (RStep.boom false)
+    | ['B'] => some (RStep.boom true)
+    | _ => none))
+
+open Mimic.Script Mimic.Conn in
+def parsePlan : List String → Option Plan
+  | [cs, f, nc, rows] => match nc.toNat?, parseRows rows with
+      | some nc, some rows =>
+        let fl := if f = "generic" then some Fail.generic else if f = "mysql" then some Fail.mysql else if f = "none" then some Fail.none else none
+        fl.map (fun fl => { callSusp := cs == "1", fail := fl, ncols := nc, rows := rows })
+      | _, _ => none
+  | [cs, f, nc, rows, sk] => match parsePlan [cs, f, nc, rows] with
+      | some p => if sk = "q" then some { p with selfKill := some Kill.query } else if sk = "c" then some { p with selfKill := some Kill.conn } else none
+      | none => none
+  | _ => none
+
+open Mimic.Script in
+def parseCmd : List String → Option Cmd
+  | "query" :: r => (parsePlan r).map .query
+  | ["ping"] => some .ping
+  | ["initdb", f] => some (.initDb (f == "1"))
+  | ["quit"] => some .quit
+  | ["prepare", n] => n.toNat?.map .prepare
+  | "execute" :: k :: c :: r => (parsePlan r).map (.execute (k == "1") (c == "1"))
+  | ["fetch", k, c, n, rows] => match n.toNat?, parseRows rows with
+      | some n, some rows => some (.fetch (k == "1") (c == "1") n rows)
+      | _, _ => none
+  | ["reset", k] => some (.stmtReset (k == "1"))
+  | ["close"] => some .stmtClose
+  | ["longdata"] => some .longData
+  | "fieldlist" :: r => (parsePlan r).map .fieldList
+  | ["changeuser", k] => some (.changeUser (k == "1"))
+  | ["unknown"] => some .unknown
+  | ["malformed"] => some .malformed
+  | _ => none
+
+def connReport (before : Nat) (c : Mimic.Conn.S) : String :=
+  let newp := (c.out.drop before).map showPK
+  (if newp.isEmpty then "-" else ",".intercalate newp) ++
+    s!" {showPhase c.phase} close={c.closeCalls} init={if c.initDone then 1 else 0} reg={if c.registered then 1 else 0} tclosed={if c.transportClosed then 1 else 0} exc={showExc c.taskExc}"
+
+open Mimic.Conn Mimic.Script in
+def connDo (st : St) (e : Ev) : St × String :=
+  let before := st.conn.out.length
+  let c := step st.conn e
+  ({ st with conn := c }, connReport before c)
+
+open Mimic.Conn Mimic.Script in
+def conn (st : St) : List String → St × String
+  | ["new"] => ({ st with conn := Mimic.Conn.init }, connReport 0 Mimic.Conn.init)
+  | ["login", "ok", s, f] => connDo st (.handshake (loginScript (.ok (s == "1") (f == "1"))))
+  | ["login", "denied"] => connDo st (.handshake (loginScript .denied))
+  | ["login", "unknown"] => connDo st (.handshake (loginScript .unknownUser))
+  | ["login", "malformed"] => connDo st (.handshake (loginScript .malformed))
+  | "cmd" :: dep :: r => match parseCmd r with
+      | some c => connDo st (.cmd (scriptOf (dep == "1") c))
+      | none => (st, "bad-op")
+  | ["resume"] => connDo st .resume
+  | ["block"] => connDo st .block
+  | ["unblock"] => connDo st .unblock
+  | ["killq"] => connDo st (.kill .query)
+  | ["killc"] => connDo st (.kill .conn)
+  | ["eof"] => connDo st .eof
+  | ["lose"] => connDo st .lose
+  | _ => (st, "bad-op")
+
 def handle (st : St) (line : String) : St × String :=
   match words line with
   | "ctl" :: rest => ctl st rest
@@ -352,6 +449,7 @@ def handle (st : St) (line : String) : St × String :=
   | "res" :: rest => (st, res st rest)
   | "par" :: rest => (st, par st rest)
   | "auth" :: rest => auth st rest
+  | "conn" :: rest => conn st rest
   | _ => (st, "bad-op")
 
 end Mimic.Drv
